@@ -275,7 +275,21 @@ void World::CheckInterrupt(const InvRecord& r) {
   for (const SpawnRec& x : r.spawns) if (!x.reap_seq || x.killed) any_running = true;
   if (!acted) {
     // the signal arrived when nothing was in flight any more (or before the
-    // build loop): finishing normally or dying from the default action are both fine
+    // build loop): finishing normally or dying from the default action are both fine.
+    // What is not fine is a signal that got lost: ninja blocks its signals outside ppoll, so
+    // the first ppoll after the signal became pending must notice it - no command may be
+    // started after that wait.
+    uint64_t t_sig = 0, t_poll = 0;
+    for (const Ev& e : r.res.trace) {
+      if (!t_sig && e.kind == Ev::kSignal && e.s == "pending") t_sig = e.seq;
+      else if (t_sig && !t_poll && e.kind == Ev::kBlock && e.s == "ppoll" && e.seq > t_sig) t_poll = e.seq;
+    }
+    if (t_poll)
+      for (const SpawnRec& x : r.spawns)
+        if (x.seq > t_poll) {
+          Report("C07", "interrupt_cleanup", "ninja was sent signal " + S(r.interrupt_sig) + " while commands were running, and went on to start statement " + S(x.stmt) + " after the next wait: the interrupt was lost");
+          break;
+        }
     return;
   }
   stats->nontrivial["C07"] = true;
